@@ -736,6 +736,30 @@ func runC17(c *Ctx) {
 			})
 		}
 		c.check(nOwner >= 4, "R2", "owner sources", p.Pos(fs.Pos()), fmt.Sprintf("%d sources", nOwner), fmt.Sprintf("only %d sources of FileStat.UID/GID found", nOwner))
+		// what the FileInfo itself says about its owner (FileInfoUidGid, the attributes in Sys()) wins over what the
+		// operating system's structure says: the per-OS helper fills the owner first, so no store of the owner made
+		// here is followed by the helper's
+		if fo != fs {
+			late := ""
+			eachInstr(fs, func(in ssa.Instruction) {
+				st, ok := in.(*ssa.Store)
+				if !ok {
+					return
+				}
+				t, n, _, ok := fieldOf(st.Addr)
+				if !ok || typeName(t) != "FileStat" || (n != "UID" && n != "GID") {
+					return
+				}
+				if reachAvoiding(fs, in, func(y ssa.Instruction) bool {
+					cc := callOf(y)
+					return cc != nil && cc.StaticCallee() == fo
+				}, func(ssa.Instruction) bool { return false }) {
+					late = pos(in)
+				}
+			})
+			c.check(late == "", "R2", "the FileInfo's own owner is not overwritten by the per-OS helper", p.Pos(fs.Pos()), "the helper runs before the owner is taken from the FileInfo",
+				"the per-OS helper runs after the owner was stored at "+late+": on unix it overwrites what FileInfoUidGid (or the attributes in Sys()) said with the numbers of the process's stat structure, or leaves a mix")
+		}
 	}
 	// accessors
 	for _, acc := range []struct{ fn, want string }{
